@@ -201,7 +201,8 @@ func (_this *cteListener) ExitValueInt(ctx *parser.ValueIntContext) {
 		isNegative = true
 	}
 
-	if v, err := strconv.ParseInt(str, 0, 64); err == nil {
+	base := intLiteralBase(str)
+	if v, err := strconv.ParseInt(str, base, 64); err == nil {
 		if v == 0 && isNegative {
 			_this.eventReceiver.OnNegativeInt(0)
 		} else {
@@ -211,7 +212,7 @@ func (_this *cteListener) ExitValueInt(ctx *parser.ValueIntContext) {
 	}
 
 	bigInt := &big.Int{}
-	if _, success := bigInt.SetString(str, 0); success {
+	if _, success := bigInt.SetString(str, base); success {
 		_this.eventReceiver.OnBigInt(bigInt)
 		return
 	}
@@ -1125,7 +1126,24 @@ func appendUID(str string, dst []byte) []byte {
 	return dst
 }
 
+// intLiteralBase returns the base to hand to strconv/big for an integer literal without digit separators: 0 (let
+// the 0b/0o/0x prefix decide) or 10. Base 0 alone would read the leading zeros of a decimal literal as an octal prefix.
+func intLiteralBase(str string) int {
+	digits := strings.TrimPrefix(str, "-")
+	if len(digits) > 1 && digits[0] == '0' {
+		switch digits[1] {
+		case 'b', 'B', 'o', 'O', 'x', 'X':
+			return 0
+		}
+	}
+	return 10
+}
+
 func parseUintElement(str string, base int, bitSize int, result []byte) []byte {
+	str = strings.ReplaceAll(str, "_", "")
+	if base == 0 {
+		base = intLiteralBase(str)
+	}
 	element, err := strconv.ParseUint(str, base, bitSize)
 	if err != nil {
 		panic(fmt.Errorf("error parsing uint element: %v", err))
@@ -1145,6 +1163,10 @@ func parseUintElement(str string, base int, bitSize int, result []byte) []byte {
 }
 
 func parseIntElement(str string, base int, bitSize int, result []byte) []byte {
+	str = strings.ReplaceAll(str, "_", "")
+	if base == 0 {
+		base = intLiteralBase(str)
+	}
 	element, err := strconv.ParseInt(str, base, bitSize)
 	if err != nil {
 		panic(fmt.Errorf("error parsing int element: %v", err))
